@@ -31,6 +31,7 @@ prop('C01',
 prop('C02',
      title='Unix timestamps and UTC date-times correspond one-to-one',
      verus=['datetime'],
+     twin=['datetime'],
      uncovered=['From<SystemTime>/Into<SystemTime> (std type opaque to both engines)',
                 'TimeZone::timestamp_opt/_millis_opt/_micros/_nanos (trait-default one-line delegations to from_timestamp*)',
                 'deprecated NaiveDateTime::from_timestamp*/timestamp* (delegate to the DateTime<Utc> functions)'],
@@ -41,6 +42,7 @@ prop('C02',
 prop('C03',
      title='Adding and subtracting elapsed time is exact or refused, never wrapped',
      verus=['datetime', 'date', 'iters'],
+     twin=['datetime', 'date', 'iters', 'zoned'],
      uncovered=['DateTime<Tz>::checked_add_signed/checked_sub_signed/signed_duration_since for Tz other than via the naive UTC value (delegations through TimeZone::from_utc_datetime)',
                 'AddAssign/SubAssign impls', 'Add/Sub<core::time::Duration> impls (std Duration conversion)'],
      text='Verus proves NaiveDateTime::checked_add_signed/checked_sub_signed/signed_duration_since (exact instant or refusal exactly when not representable), '
@@ -50,6 +52,7 @@ prop('C03',
 prop('C07',
      title='Time-of-day arithmetic wraps by whole days and honours leap-second operands',
      verus=['time', 'datetime'],
+     twin=['time', 'datetime'],
      uncovered=['Add/Sub<core::time::Duration> for NaiveTime (std Duration conversion)', 'AddAssign/SubAssign impls', 'deprecated panicking constructors from_hms* (expect wrappers)'],
      text='Verus proves every NaiveTime constructor (accepted exactly for h<24, m<60, s<60, nano<1e9 or <2e9 on second 59), accessor, single-field replacement, '
           'overflowing_add_signed/sub_signed against the documented leap-line model (stay in / leave / skip the leap second as if it were the only one), '
@@ -60,6 +63,7 @@ prop('C04',
      verus=['datetime', 'time'],
      kani=['vk_fixed_offset_ctor', 'vk_dt_eq_ord_hash', 'vk_dt_from_utc_conversions', 'vk_dt_from_local', 'vk_dt_wallclock_date_getters', 'vk_dt_wallclock_time_getters'],
      kani_thorough=['vk_dt_wallclock_week_getters'],
+     twin=['zoned', 'datetime'],
      uncovered=['DateTime<Tz>::with_* / checked_add_days / checked_add_months (map_local closures + TimeZone::from_local_datetime of an arbitrary Tz)',
                 'formatting of DateTime (core::fmt)', 'time zones other than Utc / FixedOffset (Local is C05)', 'DateTime::naive_local/date_naive (documented to panic out of range)'],
      text='Verus proves the offset shifts on the real text: NaiveTime::overflowing_add/sub_offset (sub-second field kept, day carry in {-1,0,1}), '
@@ -72,6 +76,7 @@ prop('C06',
      title='Durations are exact signed nanosecond counts within a closed range',
      verus=['timedelta'],
      kani=['vk_td_derived_ord'],
+     twin=['timedelta'],
      uncovered=['impl Display for TimeDelta (core::fmt)', 'TimeDelta::as_seconds_f32/f64 (floating point)',
                 'impl Sum for TimeDelta (iterator fold)', 'AddAssign/SubAssign (same body as Add/Sub + assignment)',
                 'deprecated min_value/max_value'],
@@ -87,6 +92,7 @@ prop('C08',
      kani=['vk_date_with_month', 'vk_date_with_day', 'vk_date_with_ordinal', 'vk_date_with_year', 'vk_date_add_months', 'vk_date_sub_months',
            'vk_date_weekday_of_month', 'vk_date_years_since', 'vk_date_quarter_ce_dim', 'vk_month_num_days',
            'vk_ndt_accessors', 'vk_ndt_with_date_fields', 'vk_ndt_with_time_fields', 'vk_ndt_months', 'vk_mdf_from_ol_with'],
+     twin=['week', 'zoned'],
      uncovered=['DateTime<Tz>::with_* / checked_add_months / checked_sub_months (go through map_local closures and the time-zone lookup)',
                 'NaiveWeek::checked_days / days (RangeInclusive construction from the two proved ends)', 'NaiveWeek::first_day/last_day (expect wrappers)',
                 'DateTime::years_since'],
@@ -98,6 +104,7 @@ prop('C08',
 prop('C17',
      title='Rounding and truncation land on the right multiple',
      verus=['round'],
+     twin=['round'],
      uncovered=['impl DurationRound for DateTime<Tz> (delegation through naive_local and the generic functions at T = DateTime<Tz>)',
                 'SubsecRound at types other than NaiveDateTime; leap-second inputs (only absence of overflow is proved for them)',
                 'Display for RoundingError'],
